@@ -1,0 +1,150 @@
+//! Hooks for external verification harnesses.
+//!
+//! This module only exists when compiled with `--cfg routinator_verif`. It
+//! provides named rendezvous points (so a harness can stop a thread at a
+//! chosen place and decide when it continues), a clock override, and forced
+//! outcomes for fault injection. Nothing here is used in regular builds.
+
+use std::collections::HashMap;
+use std::sync::{Condvar, Mutex, OnceLock};
+use chrono::{DateTime, Utc};
+
+#[derive(Default)]
+struct PointState {
+    /// Is the point armed, i.e., will threads stop there?
+    armed: bool,
+    /// Number of threads that have arrived and are waiting.
+    waiting: usize,
+    /// Number of releases available to waiting threads.
+    permits: usize,
+    /// Total number of arrivals ever.
+    arrivals: u64,
+}
+
+#[derive(Default)]
+struct Registry {
+    points: HashMap<String, PointState>,
+    forced: HashMap<String, Vec<u64>>,
+    now: Option<DateTime<Utc>>,
+    counters: HashMap<String, u64>,
+}
+
+fn registry() -> &'static (Mutex<Registry>, Condvar) {
+    static REG: OnceLock<(Mutex<Registry>, Condvar)> = OnceLock::new();
+    REG.get_or_init(|| (Mutex::new(Registry::default()), Condvar::new()))
+}
+
+/// A rendezvous point. Returns immediately unless the point is armed.
+pub fn point(id: &str) {
+    let (lock, cvar) = registry();
+    let mut reg = lock.lock().unwrap();
+    {
+        let st = reg.points.entry(id.into()).or_default();
+        st.arrivals += 1;
+        if !st.armed {
+            return
+        }
+        st.waiting += 1;
+    }
+    cvar.notify_all();
+    loop {
+        {
+            let st = reg.points.get_mut(id).unwrap();
+            if st.permits > 0 || !st.armed {
+                if st.permits > 0 {
+                    st.permits -= 1;
+                }
+                st.waiting -= 1;
+                break;
+            }
+        }
+        reg = cvar.wait(reg).unwrap();
+    }
+    cvar.notify_all();
+}
+
+/// Arms a point: threads reaching it will wait for `release`.
+pub fn arm(id: &str) {
+    let (lock, cvar) = registry();
+    lock.lock().unwrap().points.entry(id.into()).or_default().armed = true;
+    cvar.notify_all();
+}
+
+/// Disarms a point and lets everybody waiting there continue.
+pub fn disarm(id: &str) {
+    let (lock, cvar) = registry();
+    lock.lock().unwrap().points.entry(id.into()).or_default().armed = false;
+    cvar.notify_all();
+}
+
+/// Waits until at least one thread waits at the point. Returns false on
+/// timeout.
+pub fn wait_arrived(id: &str, timeout: std::time::Duration) -> bool {
+    let (lock, cvar) = registry();
+    let deadline = std::time::Instant::now() + timeout;
+    let mut reg = lock.lock().unwrap();
+    loop {
+        if reg.points.get(id).map(|st| st.waiting > 0).unwrap_or(false) {
+            return true
+        }
+        let now = std::time::Instant::now();
+        if now >= deadline {
+            return false
+        }
+        reg = cvar.wait_timeout(reg, deadline - now).unwrap().0;
+    }
+}
+
+/// Lets one waiting thread continue.
+pub fn release(id: &str) {
+    let (lock, cvar) = registry();
+    lock.lock().unwrap().points.entry(id.into()).or_default().permits += 1;
+    cvar.notify_all();
+}
+
+/// Returns how often the point has been reached.
+pub fn arrivals(id: &str) -> u64 {
+    registry().0.lock().unwrap().points.get(id).map(|st| st.arrivals).unwrap_or(0)
+}
+
+/// Overrides what `now` returns.
+pub fn set_now(now: Option<DateTime<Utc>>) {
+    registry().0.lock().unwrap().now = now;
+}
+
+/// Returns the overridden time if there is one.
+pub fn now_override() -> Option<DateTime<Utc>> {
+    registry().0.lock().unwrap().now
+}
+
+/// Queues forced outcomes for an injection site.
+pub fn set_forced(id: &str, values: Vec<u64>) {
+    registry().0.lock().unwrap().forced.insert(id.into(), values);
+}
+
+/// Takes the next forced outcome for an injection site.
+pub fn forced(id: &str) -> Option<u64> {
+    let mut reg = registry().0.lock().unwrap();
+    let queue = reg.forced.get_mut(id)?;
+    if queue.is_empty() { None } else { Some(queue.remove(0)) }
+}
+
+/// Increments a named counter and returns the new value.
+pub fn count(id: &str) -> u64 {
+    let mut reg = registry().0.lock().unwrap();
+    let c = reg.counters.entry(id.into()).or_default();
+    *c += 1;
+    *c
+}
+
+/// Returns a named counter.
+pub fn counter(id: &str) -> u64 {
+    registry().0.lock().unwrap().counters.get(id).copied().unwrap_or(0)
+}
+
+/// Resets everything.
+pub fn reset() {
+    let (lock, cvar) = registry();
+    *lock.lock().unwrap() = Registry::default();
+    cvar.notify_all();
+}
